@@ -1,6 +1,5 @@
 SPECIFICATION Spec
-CONSTANT Clause = "ni"
+CONSTANT Prop = "C04"
 CONSTRAINT Mark
-CONSTRAINT Skipped
 POSTCONDITION AllAccepted
 CHECK_DEADLOCK FALSE
